@@ -5,9 +5,10 @@ S=$(realpath $1); SC=$2; shift 2
 W=/tmp/wt/sw_$(basename $S)
 git -C /repo worktree add -q --detach $W HEAD 2>/dev/null || exit 2
 git -C $W apply $S/patch.diff || { echo "apply failed $S"; git -C /repo worktree remove --force $W; exit 2; }
+mkdir -p /tmp/sw_evidence
 cd /verif
 for id in "$@"; do
-  VERIF_REPO=$W VERIF_SCALE=$SC timeout 3600 ./check $id --no-shrink > /tmp/sw_$(basename $S)_$id.log 2>&1; rc=$?
+  VERIF_EVIDENCE_DIR=/tmp/sw_evidence VERIF_REPO=$W VERIF_SCALE=$SC timeout 3600 ./check $id --no-shrink > /tmp/sw_$(basename $S)_$id.log 2>&1; rc=$?
   echo "$(basename $S) $id exit=$rc :: $(grep -A1 '^VIOLATION' /tmp/sw_$(basename $S)_$id.log | grep signature | head -2 | tr '\n' ' ') $(grep -E 'HARNESS ERROR' /tmp/sw_$(basename $S)_$id.log | head -1)"
 done
 git -C /repo worktree remove --force $W
